@@ -111,8 +111,11 @@ def _enumerate(ctl, project, with_cost):
     return frozenset(res)
 
 
-def shown(text: str, allow_undefined: bool = False):
-    """answer sets as displayed by the program's own #show statements (with costs)"""
+def shown(text: str, allow_undefined: bool = False, terms_only: bool = False):
+    """answer sets as displayed by the program's own #show statements (with costs).  With `terms_only` (the program has
+    `#show t : body.` statements but no `#show p/n.` / `#show.`) only the displayed terms are compared: clingo then still
+    prints every atom, but by its default and not because of a #show statement - exactly as for a program with no #show
+    statement at all, where the property's auto-detected OUT is empty."""
     lg = Logger()
     ctl = clingo.Control(["0", "--opt-mode=enum", "--warn=no-atom-undefined"], logger=lg, message_limit=1000)
     try:
@@ -142,7 +145,7 @@ def shown(text: str, allow_undefined: bool = False):
                 raise Skip("too many models")
             prio = m.priority
             cost = tuple(sorted((p, c) for p, c in zip(prio, m.cost) if c != 0))
-            res.add((frozenset(str(a) for a in m.symbols(shown=True)), cost))
+            res.add((frozenset(str(a) for a in (m.symbols(terms=True) if terms_only else m.symbols(shown=True))), cost))
     return frozenset(res)
 
 
